@@ -239,6 +239,8 @@ def classify_c03(v, h, text):
     path = dec(v.get(h, "raw_path") or "")
     if scheme and not re.match(r"^[a-z][a-z0-9+.\-]*$", scheme):
         return "skip"
+    if rh is not None and ("[" in rh or "]" in rh):
+        return "malformed-brackets"
     if not valid_host(rh):
         return "skip"
     if rh is None or rh == "":
@@ -248,8 +250,6 @@ def classify_c03(v, h, text):
         val = v.get(h, "val")
         if scheme and path and not path.startswith("/") and val and val.startswith("L5:") and val[3:].split(",")[1] == "":
             return "scheme-with-rootless-path-and-no-authority"
-    if rh is not None and rh.startswith("v") and ":" in rh:
-        return "bracketed-host-not-ipv6"
     return None
 
 
